@@ -55,6 +55,10 @@ func (w *rpWalk) scalar(fd FD, v protoreflect.Value, path string) {
 			w.bad("field-mapper-ignored", fmt.Sprintf("%s: string %q was not produced by the field mapper", path, v.String()))
 		}
 		w.stats["strings"]++
+	case protoreflect.BytesKind:
+		if w.o.mapper && string(v.Bytes()) != mappedString {
+			w.bad("field-mapper-ignored", fmt.Sprintf("%s: bytes %x were not produced by the (first) field mapper", path, v.Bytes()))
+		}
 	case protoreflect.EnumKind:
 		w.stats["enums"]++
 		if fd.Enum().Values().ByNumber(v.Enum()) == nil {
@@ -229,12 +233,20 @@ func engineRapidp(rep *Report) {
 				continue // quick tier: 6-7 of the 16 option combinations per type (which ones depends on the type)
 			}
 			if o.mapper {
-				gopts.FieldMaps = []rapidproto.FieldMapper{func(t *rapid.T, fd protoreflect.FieldDescriptor, name string) (protoreflect.Value, bool) {
-					if fd.Kind() == protoreflect.StringKind {
-						return protoreflect.ValueOfString(mappedString), true
-					}
-					return protoreflect.Value{}, false
-				}}
+				// two mappers: the first one only handles bytes and declines everything else, the second handles strings
+				gopts.FieldMaps = []rapidproto.FieldMapper{
+					func(t *rapid.T, fd protoreflect.FieldDescriptor, name string) (protoreflect.Value, bool) {
+						if fd.Kind() == protoreflect.BytesKind {
+							return protoreflect.ValueOfBytes([]byte(mappedString)), true
+						}
+						return protoreflect.Value{}, false
+					},
+					func(t *rapid.T, fd protoreflect.FieldDescriptor, name string) (protoreflect.Value, bool) {
+						if fd.Kind() == protoreflect.StringKind {
+							return protoreflect.ValueOfString(mappedString), true
+						}
+						return protoreflect.Value{}, false
+					}}
 			}
 			// both the generated type and a dynamic message of the same descriptor
 			for variant := 0; variant < 2; variant++ {
